@@ -23,7 +23,9 @@ import (
 	"verifharness/hx"
 )
 
-// c05.retry  kind robin keyhex hosts maxConns maxFails tryDuration interval failTimeout bodyLen
+// c05.retry  kind robin keyhex hosts maxConns maxFails tryDuration interval failTimeout bodyLen framing
+//   framing  cl: Content-Length = bodyLen (0 = http.NoBody) | chunked: ContentLength -1, TransferEncoding chunked, non-nil Body
+//            (what net/http hands a handler for a chunked upload, also when the body turns out empty) | nil: Body nil
 //   hosts  comma list of u/c/script : u 1 = marked unhealthy; c = in-flight count before the request;
 //          script = outcome of the successive attempts on that host, last repeats:
 //          K answers, F fails before reading the body, R fails after reading it, C context.Canceled, T ErrMaxBytesExceeded
@@ -87,7 +89,11 @@ func (t *c05RetryTransport) RoundTrip(req *http.Request) (*http.Response, error)
 }
 
 func c05RetryEval(f []string) (string, []string) {
-	if len(f) != 10 {
+	if len(f) != 11 {
+		return "bad-case", nil
+	}
+	framing := f[10]
+	if framing != "cl" && framing != "chunked" && framing != "nil" {
 		return "bad-case", nil
 	}
 	kind, robinS, keyS, hostsS := f[0], f[1], f[2], f[3]
@@ -132,11 +138,24 @@ func c05RetryEval(f []string) (string, []string) {
 	}
 	robin, _ := strconv.ParseUint(robinS, 10, 32)
 	key := hx.UnHS(keyS)
-	var rd io.Reader
-	if bodyLen > 0 {
-		rd = bytes.NewReader(body)
+	req := httptest.NewRequest("POST", "http://front.test/", nil)
+	switch framing {
+	case "cl":
+		if bodyLen > 0 {
+			req.Body = io.NopCloser(bytes.NewReader(body))
+			req.ContentLength = int64(bodyLen)
+		}
+	case "chunked":
+		req.Body = io.NopCloser(bytes.NewReader(body))
+		req.ContentLength = -1
+		req.TransferEncoding = []string{"chunked"}
+	case "nil":
+		if bodyLen != 0 {
+			return "bad-case", nil
+		}
+		req.Body = nil
+		req.ContentLength = 0
 	}
-	req := httptest.NewRequest("POST", "http://front.test/", rd)
 	req.RemoteAddr = "192.0.2.1:4000"
 	req.RequestURI = "/"
 	switch kind {
@@ -202,9 +221,19 @@ func c05RetryGen(g *hx.Gen) {
 	r := g.Rng
 	kinds := []string{"first", "round_robin", "ip_hash", "uri_hash"}
 	keys := map[string][]string{"first": {""}, "round_robin": {""}, "ip_hash": {"10.0.0.1", "10.0.0.2", "192.168.7.33"}, "uri_hash": {"/", "/a/b?c=d", "/k"}}
-	emit := func(kind string, robin int, key string, hosts []string, mc, mf, d, i, f, blen int) {
+	emitF := func(framing, kind string, robin int, key string, hosts []string, mc, mf, d, i, f, blen int) {
 		g.Case(kind, strconv.Itoa(robin), hx.HS(key), strings.Join(hosts, ","), strconv.Itoa(mc), strconv.Itoa(mf),
-			strconv.Itoa(d), strconv.Itoa(i), strconv.Itoa(f), strconv.Itoa(blen))
+			strconv.Itoa(d), strconv.Itoa(i), strconv.Itoa(f), strconv.Itoa(blen), framing)
+	}
+	emitN := 0
+	// the framing of the request body cycles through known length / unknown length (chunked upload)
+	emit := func(kind string, robin int, key string, hosts []string, mc, mf, d, i, f, blen int) {
+		emitN++
+		framing := "cl"
+		if emitN%2 == 0 {
+			framing = "chunked"
+		}
+		emitF(framing, kind, robin, key, hosts, mc, mf, d, i, f, blen)
 	}
 	const D, I, F = 3000, 1, 600000
 	// 1. exhaustive: pools of 1..3 (thorough 1..4), every host one of: healthy, fails unread, fails after reading, unhealthy, full;
@@ -281,6 +310,23 @@ func c05RetryGen(g *hx.Gen) {
 		}
 		blen := hx.Pick(r, []int{0, 1, 1000, 32 * 1024, 70000})
 		emit(kind, r.Intn(6), hx.Pick(r, keys[kind]), hosts, 2, 1+r.Intn(3), d, I, F, blen)
+	}
+	// 2b. body framing x failure scripts, two and three backends: known Content-Length, unknown length (chunked upload,
+	//     also with an empty body), Content-Length 0 with http.NoBody, nil Body; the failing backends fail before
+	//     reading the body (F) or after reading it (R); with and without retries
+	for _, fr := range []struct {
+		framing string
+		blen    int
+	}{{"cl", 1}, {"cl", 1000}, {"cl", 70000}, {"chunked", 1}, {"chunked", 1000}, {"chunked", 70000}, {"chunked", 0}, {"cl", 0}, {"nil", 0}} {
+		for _, hosts := range [][]string{{"0/0/F", "0/0/K"}, {"0/0/R", "0/0/K"}, {"0/0/R", "0/0/R", "0/0/K"}, {"0/0/F", "0/0/R", "0/0/K"}, {"0/0/RK", "0/0/K"}, {"0/0/K", "0/0/R"}} {
+			for _, kind := range []string{"first", "round_robin"} {
+				for _, d := range []int{D, 0} {
+					for _, mf := range []int{1, 2} {
+						emitF(fr.framing, kind, len(hosts), "", hosts, 0, mf, d, I, F, fr.blen)
+					}
+				}
+			}
+		}
 	}
 	// 3. client cancellation and over-long bodies end the loop at once
 	for _, sc := range []string{"C", "T", "FC", "RT"} {
